@@ -77,7 +77,7 @@ m = {
               'kind_free_text': 'custom repository-specific static analyser (typed AST + go/ssa + call graph + regexp/syntax); no repository code is executed'}],
  'checks': checks,
  'not_applicable': na,
- 'notes': 'All checks are static analysis of /repo\'s working tree by one binary (bin/gochk, built by setup_cmd from checker/ with vendored golang.org/x/tools v0.29.0). Thorough tier = quick + other build configurations + the sensitivity corpus (mutants/corpus.json applied through in-memory overlays). Genuine defects found and repaired are in known_findings.txt (fixed: lines).',
+ 'notes': 'All checks are static analysis of /repo\'s working tree by one binary (bin/gochk, built by setup_cmd from checker/ with vendored golang.org/x/tools v0.29.0). Before the rules run the tree is normalised in memory (unexported anchors located by role when renamed; functions that are not in the reference table inlined into their callers), see DESIGN.md 10.9. Thorough tier = quick + other build configurations + the sensitivity corpus (mutants/corpus.json applied through in-memory overlays) + the independently seeded changes (seeded/, must be reported) + the independently written refactorings (benign/, must stay silent), each applied to a throw-away copy outside /repo and /verif. Genuine defects found and repaired are in known_findings.txt (fixed: lines).',
 }
 json.dump(m, open(os.path.join(V, 'MANIFEST.json'), 'w'), indent=1)
 print('claimed', len(checks), 'not_applicable', len(na))
